@@ -422,8 +422,12 @@ class HttpParser(abc.ABC, Generic[_MsgT]):
 
                         assert self.protocol is not None
                         # calculate payload
+                        # Only a *response* to HEAD is bodiless; a HEAD request is
+                        # framed by Content-Length/Transfer-Encoding like any other
+                        # request (RFC 9112 section 6.3), otherwise its body bytes
+                        # would be parsed as the next pipelined request.
                         empty_body = code in EMPTY_BODY_STATUS_CODES or bool(
-                            method and method in EMPTY_BODY_METHODS
+                            self.method and self.method in EMPTY_BODY_METHODS
                         )
                         if not empty_body and (
                             (length is not None and length > 0) or msg.chunked
